@@ -440,6 +440,42 @@ def forkOntoLive (ref : Nat) (rs : List Rec) : List Nat :=
 
 end Life
 
+/-! ## C01 keyed by entry: accepted samples with their incarnation
+
+The incarnation index of a sample = the pid / tid suffixes of the process and thread incarnations that are current
+right after the sample's own record has been read (`Life.step`: a sample creates its thread on demand). The entry
+of the profile that must carry the sample is `idStr pid psuffix` / `idStr tid tsuffix` (`pid`, `pid.1`, …). Computed
+from the bare record list; meaningful for histories inside `Life.grammarOk` (where `Life` is the judged reading). -/
+
+structure AccI where
+  pid : Nat
+  tid : Nat
+  t : Nat
+  psuffix : Nat
+  tsuffix : Nat
+deriving Repr, DecidableEq
+
+/-- the (process index, thread index) of the incarnations current for (pid, tid) -/
+def Life.curIdx (l : Life.S) (pid tid : Nat) : Option (Nat × Nat) :=
+  match Life.curProc l pid with
+  | some pi => (Life.curThread l pi tid).map (fun ti => (pi, ti))
+  | none => none
+
+def accIncStep (st : (Last × Life.S) × List AccI) (r : Rec) : (Last × Life.S) × List AccI :=
+  let l' := Life.step st.1.2 r
+  let a := accStep (st.1.1, []) r
+  let new : List AccI := match r, a.2 with
+    | .sample pid tid t _ _ _ _, [_] =>
+      let idx := Life.curIdx l' pid tid
+      [{ pid, tid, t,
+         psuffix := ((idx.bind (fun i => l'.ps[i.1]?)).map (·.suffix)).getD 0,
+         tsuffix := ((idx.bind (fun i => l'.ts[i.2]?)).map (·.suffix)).getD 0 }]
+    | _, _ => []
+  ((a.1, l'), st.2 ++ new)
+
+def acceptedInc (ref : Nat) (rs : List Rec) : List AccI :=
+  (rs.foldl accIncStep (([], { ref, cur := ref }), [])).2
+
 /-! ## C02: announced mappings and the newest-live-covering rule -/
 
 /-- what a process has been told about its address space, oldest first: (timestamp, mapping) -/
@@ -594,6 +630,9 @@ structure ExpSample where
   legacyQ : List Frame
   /-- some relative address of the expected stack does not fit 32 bits -/
   overflow : Bool
+  /-- number of recorded frames (the length hint the depth limiter works with; used by `C02_history` /
+  `C14_history`, not by the judges) -/
+  nrec : Nat := 0
 
 def takeWhileLe (ann : Announced) (t : Nat) : Announced := ann.takeWhile (fun e => decide (e.1 ≤ t))
 
@@ -622,9 +661,41 @@ def expectedSamples (cfg : Config) (rs : List Rec) : List ExpSample :=
         { pid, tid, t, frames := expandJs (stack.map (expectInfo ann t pm)),
           legacySp := expandJs (stack.map (expectInfo annSp t pm)),
           legacyQ := expandJs (stack.map (expectInfo annQ teff pm)),
-          overflow := stack.any (expectOverflows ann t pm) } :: go st' stL' (alPut mx' pid teff) a.1 rest
+          overflow := stack.any (expectOverflows ann t pm), nrec := stack.length } ::
+          go st' stL' (alPut mx' pid teff) a.1 rest
       | _, _ => go st' stL' mx' a.1 rest
   go [] [] [] [] rs
+
+/-! ### Hypotheses of the history-level theorem `C02_history` (each is a known finding of samply or an input class
+outside perf's contract; decidable, evaluated on the bare record list) -/
+
+/-- no executable MMAP2 record names `//anon`, `[heap]`, `[stack]`, `[vvar]` (known finding
+C02-special-path-not-evicting: samply queues nothing for them; the judge tags a failure that equals
+`ExpSample.legacySp`, and without such a record `legacySp = frames`: `C02_noSpecial_legacySp`) -/
+def noSpecial (rs : List Rec) : Bool :=
+  rs.all (fun r => match r with
+    | .mmap2 _ _ _ _ _ true path _ => !specialPath path
+    | _ => true)
+
+/-- the time of a record that enters a per-process queue or buffer: executable MMAP2 records (mapping queue) and
+SAMPLE records of a real thread (sample buffer) -/
+def queuedTime : Rec → Option Nat
+  | .mmap2 _ _ _ _ _ true _ t => some t
+  | .sample _ tid t _ _ _ _ => if tid = 0 then none else some t
+  | _ => none
+
+/-- from the running maximum `T` on, the queued records are delivered in time order -/
+def orderedFrom : Nat → List Rec → Bool
+  | _, [] => true
+  | T, r :: rest =>
+    match queuedTime r with
+    | some t => decide (T ≤ t) && orderedFrom t rest
+    | none => orderedFrom T rest
+
+/-- MMAP2 and SAMPLE records are delivered in time order (perf's round contract; the excluded point is the known
+finding C02-backdated-record: the `layout` families of the generator, judged through `ExpSample.legacyQ`). Records
+of other kinds (COMM / FORK / EXIT, e.g. the synthesized time-0 head) may carry any timestamp. -/
+def queuedOrdered (rs : List Rec) : Bool := orderedFrom 0 rs
 
 /-- expected root-first frames of every accepted sample, in record order: (pid, tid, t, frames) -/
 def expectedStacks (cfg : Config) (rs : List Rec) : List (Nat × Nat × Nat × List Frame) :=
